@@ -196,6 +196,8 @@ class Program:
             gm = re.match(r'(\w+)<(.*)>$', trl)
             cands = []
             if gm:
+                # trait arguments: shorten every type path inside, keep references and nested generics (`From<&str>`, `From<Vec<cell::Cell>>`)
+                cands.append('%s<%s>' % (gm.group(1), re.sub(r'(?:\w+::)+\w+', lambda mm: s.short_ty(mm.group(0)), gm.group(2))))
                 cands.append('%s<%s>' % (gm.group(1), s.short_ty(gm.group(2))))
                 cands.append(gm.group(1))
             else:
@@ -204,6 +206,10 @@ class Program:
                 for a in (amp, ''):
                     k = '<%s%s as %s>::%s' % (a, sty, t, meth)
                     if k in s.index:
+                        if gm and t == gm.group(1):
+                            # argument-less fall-back: only if the type has ONE impl of that trait (never guess among several)
+                            pre = '<%s%s as %s<' % (a, sty, t)
+                            if len(set(s.index[q] for q in s.index if q.startswith(pre) and q.endswith('>::' + meth))) > 1: continue
                         # blanket std impls for references (`impl PartialEq<&B> for &A`, Display for &T, ...) forward to
                         # the impl of the referent: the arguments then carry one more reference level
                         s.last_autoderef = len(re.match(r'&*', ty.replace('&mut ', '&')).group(0)) if (amp and not a) else 0
